@@ -213,7 +213,8 @@ def main(argv):
     extra = getattr(mod, "evidence_extra", lambda cx: None)(cx) or {}
     if known_hits:
         extra = dict(extra, known_findings=known_hits)
-    write_evidence(pid, tier, level, cx, wall, len(new), db_info, mod, extra)
+    if not a.replay:       # a replay re-evaluates one instance; the evidence of the full run stays
+        write_evidence(pid, tier, level, cx, wall, len(new), db_info, mod, extra)
     nob = len(cx.obs)
     print("%s [%s] %d obligations, %d hold, %d known findings, %d violations; "
           "%s; %.1fs" % (pid, tier, nob, nob - len(failed), len(failed) - len(new), len(new),
